@@ -77,7 +77,7 @@ type manualCtx struct {
 	err  error
 }
 
-func newManualCtx() *manualCtx { return &manualCtx{done: make(chan struct{})} }
+func newManualCtx() *manualCtx                         { return &manualCtx{done: make(chan struct{})} }
 func (c *manualCtx) Deadline() (time.Time, bool)       { return time.Time{}, false }
 func (c *manualCtx) Done() <-chan struct{}             { return c.done }
 func (c *manualCtx) Value(key interface{}) interface{} { return nil }
